@@ -174,8 +174,13 @@ fn observe<B: Be<T = f64>>(name: &'static str, pr: &Problem) -> Value {
 }
 
 pub fn make_problem(k: usize) -> Problem {
+    make_problem_n(k, None)
+}
+
+/// `rows`: a prescribed number of rows (size ladder: more than 1024 rows crosses every block size in use)
+pub fn make_problem_n(k: usize, rows: Option<usize>) -> Problem {
     let mut r = rng(2000 + k as u64);
-    let n = r.gen_range(12..=28usize);
+    let n = rows.unwrap_or_else(|| r.gen_range(12..=28usize));
     let p = r.gen_range(2..=4usize);
     let mut x: Vec<f64> = (0..n * p).map(|_| r.gen_range(-6..=6) as f64).collect();
     // every class is present: rows 0, 1, 2 carry first features -4, 1, 4
@@ -190,7 +195,8 @@ pub fn make_problem(k: usize) -> Problem {
     let mut y3 = vec![0.0; n];
     for i in 0..n {
         let s: f64 = (0..p).map(|j| x[i * p + j] * w[j]).sum();
-        yreg[i] = s + r.gen_range(-2..=2) as f64;
+        // (large problems: a common level of 100, so that losing any single target moves the mean visibly)
+        yreg[i] = s + r.gen_range(-2..=2) as f64 + if rows.is_some() { 100.0 } else { 0.0 };
         // the class is decided by the first feature with a margin of one unit around 0.5
         ycls[i] = if x[i * p] >= 1.0 { 1.0 } else { 0.0 };
         y3[i] = if x[i * p] <= -3.0 { 0.0 } else if x[i * p] <= 2.0 { 1.0 } else { 2.0 };
@@ -208,8 +214,29 @@ pub fn make_problem(k: usize) -> Problem {
     Problem { n, p, x, xcount, xbin, yreg, ycls, y3, spd, seed: 11 + k as u64 }
 }
 
+/// estimators whose cost stays small on a thousand rows
+const LARGE: [&str; 14] = [
+    "linear_qr", "ridge_cholesky", "lasso", "elastic_net", "gaussian_nb", "tree_regressor", "pca", "accuracy", "mse", "mae", "r2",
+    "qr_r", "svd_s", "logistic",
+];
+
 pub fn gen_est(nprob: usize, only: Option<&str>, out: &mut Out) {
     let mut run = 5_000_000i64;
+    // size ladder: the same problems with 1025 / 1100 (thorough: also 2049) rows
+    let sizes: &[usize] = if vutil::thorough() { &[1025, 1100, 2049] } else { &[1100] };
+    for (j, &rows) in sizes.iter().enumerate() {
+        let pr = make_problem_n(900 + j, Some(rows));
+        for name in LARGE.iter() {
+            if let Some(f) = only {
+                if !name.contains(f) {
+                    continue;
+                }
+            }
+            run += 1;
+            let obs = vec![observe::<Dense64>(name, &pr), observe::<NdArr>(name, &pr), observe::<Nalg>(name, &pr)];
+            out.emit(json!({"run": run, "ev": "Est", "op": name, "n": pr.n, "p": pr.p, "problem": 900 + j, "obs": obs}));
+        }
+    }
     for k in 0..nprob {
         let pr = make_problem(k);
         for name in NAMES.iter() {
